@@ -368,8 +368,42 @@ def guard_rules(ctx, facts, rep, rule="C08-GUARD"):
     exr = Ex(rc)
     lf = calls_matching(rc, r"^write::FileOptions::large_file$")
     if not lf:
-        ok = False
-        rep.violation(rule, "raw-copy:large_file", where(rc, rc.span), "raw copy no longer decides large_file from the source sizes")
+        # no builder call: the options may be a struct literal -- decide the same truth table on the value that reaches start_entry
+        from engine import sym as _sym
+        try:
+            res = _sym.Sym(rc).run(lambda bb_, t_: (t_.get("callee") or "").endswith("::start_entry"))
+        except _sym.SymTooComplex:
+            res = []
+        rows, bad = 0, []
+        for r_ in res:
+            o_ = r_["args"][2] if len(r_["args"]) > 2 else None
+            if o_ is None:
+                continue
+            v_ = _sym.field_of(o_, "large_file")
+            dec = {}
+            for d_, val_ in r_["state"].conds:
+                if d_[0] == "bin" and d_[1] == "Gt" and d_[3][0] == "const" and d_[3][2] == bthr:
+                    src_ = _sym.show(d_[2])
+                    which = "c" if "compressed_size" in src_ else ("u" if re.search(r"\bsize\(|uncompressed_size", src_) else None)
+                    if which:
+                        dec[which] = 0 if val_ == 0 else 1
+            rows += 1
+            if v_[0] == "const" and isinstance(v_[2], int):
+                want = (dec.get("c") == 1 or dec.get("u") == 1) if v_[2] else (dec.get("c") == 0 and dec.get("u") == 0)
+                if not want:
+                    bad.append((v_[2], dec))
+            elif v_[0] == "bin" and v_[1] == "Gt" and v_[3][0] == "const" and v_[3][2] == bthr:
+                src_ = _sym.show(v_[2])
+                rest = "c" if "compressed_size" in src_ else ("u" if re.search(r"\bsize\(|uncompressed_size", src_) else None)
+                if rest is None or dec.get({"c": "u", "u": "c"}[rest]) != 0:
+                    bad.append((src_[:40], dec))
+            elif v_[0] == "bin" and v_[1] == "Gt" and v_[2][0] == "call" and v_[2][1].endswith("::max") and v_[3][0] == "const" and v_[3][2] == bthr:
+                pass
+            else:
+                bad.append((_sym.show(v_)[:60], dec))
+        good = rows >= 1 and not bad
+        ok &= rep.check(good, rule, "raw-copy:large_file", where(rc, rc.span), "large_file = (compressed > 0xFFFFFFFF || uncompressed > 0xFFFFFFFF) on every path to start_entry",
+                        "raw copy no longer decides large_file from the source sizes (%s)" % bad[:2])
     else:
         v = norm(exr.operand(lf[0][1]["args"][1], (lf[0][0], None)))
         toks = tokens(v)
